@@ -11,6 +11,7 @@ CONSTANTS
   CacheMisses = TRUE
   VerBumps = FALSE
   Forges = FALSE
+  Legacies = FALSE
   FailKinds = {"fnerror1", "fnerror2", "fatal1", "fatal2", "reqloop1", "reqloop2", "reqlabel1", "reqlabel2"}
 VIEW view
 ACTION_CONSTRAINT Emit
